@@ -211,11 +211,26 @@ func commonAncestor(m *compile.Module) string {
 type recorder struct {
 	srcRoot string
 	got     *reqDump
+	files   string // Case.PluginFiles
 }
 
 func (r *recorder) Generate(req *api.GenerateServiceRequest) (*api.GenerateServiceResponse, error) {
 	r.got = canonRequest(req, r.srcRoot)
-	return &api.GenerateServiceResponse{Files: map[string][]byte{}}, nil
+	files := map[string][]byte{}
+	body := func(tag string) []byte {
+		return []byte(fmt.Sprintf("// %s: %d services, %d modules\npackage zzplugin\n", tag, len(req.Services), len(req.Modules)))
+	}
+	switch r.files {
+	case "distinct":
+		files["zzplugin/a.go"] = body("a")
+		files["zzplugin/b.go"] = body("b")
+		files["zzplugin/deep/c.go"] = body("c")
+	case "respelled":
+		files["zzplugin/helper.go"] = body("first spelling")
+		files["./zzplugin/helper.go"] = body("second spelling")
+		files["zzplugin/other.go"] = body("other")
+	}
+	return &api.GenerateServiceResponse{Files: files}, nil
 }
 
 func linkOrder(srcRoot string, orders map[string][]string) compile.LinkOrder {
@@ -274,7 +289,7 @@ func libRun(c Case, s *snapshot, srcRoot, entry, out string, orders map[string][
 		if c.Opts.AutoRoot {
 			root = commonAncestor(m)
 		}
-		rec := &recorder{srcRoot: srcRoot}
+		rec := &recorder{srcRoot: srcRoot, files: c.PluginFiles}
 		o := c.Opts
 		err = gen.Generate(m, &gen.Options{
 			OutputDir:             out,
